@@ -128,11 +128,13 @@ pub fn judge(cfg: &Cfg, input: &str, via_parser: bool) -> (Option<Judged>, Optio
             let want = model_post(&model_edit(cfg, seen));
             match (&out, want) {
                 (Out::Err(e), Err(w)) => {
+                    // refused by the generic checks, as it must be; the statement does not fix the
+                    // variant, only that it is not one of the errors the shape itself injected
                     j.post_refused = true;
-                    if *e == w {
-                        (Some(j), None)
+                    if e.starts_with("Conv(") || e.starts_with("Hook(") {
+                        fail("post-check-wrong-error", &w, format!("the hook succeeded and the generic checks must refuse ({w}), but the error returned is the shape's own {e}"))
                     } else {
-                        fail("post-check-wrong-error", &w, format!("after the hook the generic checks must answer {w}, got {e}"))
+                        (Some(j), None)
                     }
                 },
                 (Out::Ok(p), Err(w)) => fail("post-check-skipped", &w, format!("after the hook the generic checks must answer {w}, but a PURL was produced: {:?}", Snap::of(p))),
